@@ -19,9 +19,9 @@ const TOKENS: [&str; 5] = ["/", ".", "..", "a", "bc"];
 fn max_tokens(ctx: &Ctx) -> u32 {
     match (ctx.is_dbg(), ctx.tier.pick(0, 1)) {
         (false, 0) => 6,
-        (false, _) => 8,
+        (false, _) => 9,
         (true, 0) => 5,
-        (true, _) => 7,
+        (true, _) => 8,
     }
 }
 
@@ -168,7 +168,7 @@ fn run(ctx: &Ctx, rep: &Report) {
     rep.set_exhaustive(true);
     // a few longer / odd destinations
     let mut rng = Rng::for_case(ctx.seed, "C17-dest", 0);
-    let extra: u64 = ctx.tier.pick(5000, 100_000);
+    let extra: u64 = ctx.tier.pick(5000, 1_000_000);
     let mut extras: Vec<String> = vec!["/".into(), "./".into(), "".into(), "/\0".into(), "/a\0/b".into(), "//".into(), "/./".into(), "./.".into(), "./..".into(), "/..".into(), "/usr/..".into(), "C:\\x".into(), "~".into(), "/ü/é".into(), "/a/".into(), "./a/".into()];
     for _ in 0..extra {
         let n = rng.usize(12);
